@@ -45,6 +45,10 @@ def cases(tier, seed):
         yield dict(kind='resample', forecasts=chunk)
     for chunk in space.chunks(fcs, 40):
         yield dict(kind='history', forecasts=chunk)
+    # structured LARGE forecasts and observations (size-dependent paths): many synthetic catalogs, many events
+    for J in (12, 40, 150):
+        for pattern in (0, 1):
+            yield dict(kind='large', J=J, pattern=pattern)
     # calibration test: every sub-sequence (length 1..4) of a fixed family of six evaluation results (one of them not-valid)
     yield dict(kind='calibration')
     if tier == 'thorough':
@@ -255,8 +259,11 @@ def compare(site, res, want, cls, rep, failures, hsh):
     if not close(td, want['dist']):
         failures.append(Fail(f'{site}|test-distribution|{cls}', f'test_distribution={td}, documented definition gives {want["dist"]}', rep))
         return
-    if not close(list(res.quantile), list(want['q'])):
-        failures.append(Fail(f'{site}|quantile|{cls}', f'quantile={res.quantile}, empirical probabilities give {want["q"]}', rep))
+    # the quantile is the empirical probability of the statistics as computed: statistics that are mathematically tied may
+    # differ in the last bit between the library's summation order and the reference's, so either set of floats is accepted
+    q_own = ecdf_pair(td, float(st)) if td else None
+    if not (close(list(res.quantile), list(want['q'])) or (q_own is not None and close(list(res.quantile), list(q_own)))):
+        failures.append(Fail(f'{site}|quantile|{cls}', f'quantile={res.quantile}, empirical probabilities give {want["q"]} (from the reference statistics) / {q_own} (from the reported statistics)', rep))
 
 
 def run_tests(fc, forecast, obs_types, reg, origins, mags, failures, hsh, which, tag):
@@ -367,6 +374,20 @@ def run_case(case):
                     nontriv += 1
             if len(failures) > 80:
                 break
+    elif k == 'large':
+        J, pat = case['J'], case['pattern']
+        if pat == 0:
+            forecast = [[(j * 3 + i) % 6 for i in range(j % 5)] for j in range(J)]                   # sizes 0..4, all cells sampled
+        else:
+            forecast = [[(0 if (i + j) % 2 else 3) for i in range((j * 7) % 12)] for j in range(J)]     # sizes 0..11, only two event types
+        fc = mem_forecast(forecast, reg, origins, mags)
+        for obs_types in ([], [2], [0, 1, 2, 3, 4, 5, 0], [3] * 9 + [0] * 6, [1, 5] * 10):
+            e, cls = run_tests(fc, forecast, obs_types, reg, origins, mags, failures, hsh, None, 'mem')
+            evals += e
+            states += 1
+            nontriv += 1
+        for f in failures:
+            f['case'] = dict(case)
     elif k == 'history':
         # multi-step histories on one forecast object: N-test, then the stored synthetic catalogs are thinned in place
         # ('magnitude >= 6.0' keeps the events of the upper magnitude bin), then the N-test again
